@@ -297,6 +297,8 @@ func writeEvidence(opt *Options, rep *CheckReport, notCovered []string, violatio
 		"calls without a contract havoc the heap and their results; goroutines, channels, select, unsafe, reflection are out of fragment",
 		"pure methods are functions of receiver and arguments only (immutable-object assumption)",
 		"a contracted callee runs no function values other than its arguments (closures stored in the heap earlier are not re-entered by it)",
+		"an interface value holding a nil pointer is identified with the nil interface (typed-nil interfaces are not modelled)",
+		"a pointer-receiver method promoted through an embedded struct VALUE is called at an address unrelated to the enclosing object (such accessors are not put under contract)",
 		"every trusted contract listed in coverage.trusted_base",
 	}
 	ass = append(ass, rep.Assumptions...)
